@@ -90,6 +90,8 @@ fn load_links_for_layout(
         let matched_files = glob(path_pattern).map_err(|e| {
             Error::VerificationFailure(format!("Path glob error: {}", e))
         })?;
+        #[cfg(in_toto_verif)]
+        let matched_files = crate::verif_hooks::perm_paths(matched_files, "E");
         for link_path in matched_files.flatten() {
             // load link from the disk, canbe either a linkfile or a layout file
             let link_metablock = load_linkfile(&link_path)?;
@@ -146,6 +148,8 @@ fn verify_link_signature_thresholds_step(
     pubkeys: &HashMap<KeyId, PublicKey>,
 ) -> Result<HashMap<KeyId, Metablock>> {
     let mut metablocks = HashMap::new();
+    #[cfg(in_toto_verif)]
+    let links = &crate::verif_hooks::view(links, "A");
 
     // Get all links for the given step, verify them, and record the good
     // links in the HashMap.
@@ -215,8 +219,12 @@ fn verify_sublayouts(
     link_dir: &str,
 ) -> Result<HashMap<String, HashMap<KeyId, LinkMetadata>>> {
     let mut steps_link_metadata = HashMap::new();
+    #[cfg(in_toto_verif)]
+    let chain_link_dict = crate::verif_hooks::owned(chain_link_dict, "B");
     for (step_name, key_link_dict) in chain_link_dict {
         let mut link_per_step = HashMap::new();
+        #[cfg(in_toto_verif)]
+        let key_link_dict = crate::verif_hooks::owned(key_link_dict, "B2");
         for (keyid, link) in &key_link_dict {
             let link_metadata = match &link.metadata {
                 MetadataWrapper::Layout(_) => {
@@ -322,6 +330,9 @@ fn verify_threshold_constraints(
                     step.name
                 ))
             })?;
+        #[cfg(in_toto_verif)]
+        let key_link_per_step =
+            &crate::verif_hooks::view(key_link_per_step, "C");
         if key_link_per_step.len() < step.threshold as usize {
             return Err(Error::VerificationFailure(format!(
                 "step {} does not be performed by enough functionaries.",
@@ -361,6 +372,8 @@ fn reduce_chain_links(
     link_files: HashMap<String, HashMap<KeyId, LinkMetadata>>,
 ) -> Result<HashMap<String, LinkMetadata>> {
     let mut res = HashMap::new();
+    #[cfg(in_toto_verif)]
+    let link_files = crate::verif_hooks::owned_nested(link_files, "D");
     link_files.iter().try_for_each(|(k, v)| -> Result<()> {
         res.insert(
             k.clone(),
